@@ -59,6 +59,28 @@ for n in sizes:
             cond = (ev.max() + d) / (ev.min() + d)
             if np.max(np.abs(R)) > err + 1e-9 * cond + 1e-6:
               add("matrix_inverse_pth_root", inp, f"residual {np.max(np.abs(R)):.3g} exceeds the reported error {err:.3g}")
+# the largest-eigenvalue estimate never exceeds the true largest eigenvalue (well-separated and clustered spectra)
+for n in (2, 4, 8):
+  for scale in (1.0, 1e-4, 1e3):
+    for spectrum in ("separated", "clustered-1e-2", "clustered-1e-3", "rank-1"):
+      cases += 1
+      if spectrum == "separated":
+        ev = scale * 0.5 ** np.arange(n)
+      elif spectrum == "rank-1":
+        ev = np.concatenate([[scale], np.zeros(n - 1)])
+      else:
+        ev = scale * (1.0 - float(spectrum.split("-", 1)[1]) * np.arange(n))
+      q, _ = np.linalg.qr(rng.randn(n, n))
+      A32 = np.asarray((q * ev) @ q.T, np.float32)
+      A32 = (A32 + A32.T) / 2
+      lam = float(np.linalg.eigvalsh(A32.astype(np.float64))[-1])
+      _, s_out = ds.power_iteration(jnp.asarray(A32))
+      if float(s_out) > lam * (1 + 1e-5) + 1e-30:
+        add("power_iteration", [n, scale, spectrum], f"estimate {float(s_out):.7g} exceeds the true largest eigenvalue {lam:.7g}")
+      _, met = ds.matrix_inverse_pth_root(jnp.asarray(A32), 4, ridge_epsilon=1e-6)
+      if float(met.max_eigen_value) > lam * (1 + 1e-5) + 1e-30:
+        add("matrix_inverse_pth_root", [n, scale, spectrum], f"max_eigen_value {float(met.max_eigen_value):.7g} exceeds lambda_max {lam:.7g}")
+
 # all padding
 cases += 1
 X, met = ds.matrix_inverse_pth_root(jnp.eye(4), 4, padding_start=0)
